@@ -8,7 +8,7 @@ CONSTANTS Depth
 
 Shapes  == {"str", "int", "float", "bool", "bytes", "stringer", "error", "ptrstr", "struct", "longstr", "istr"}
 Stages  == {"", "raw", "unsafe", "safeHtml", "safeJs", "usersw"}
-Focals  == {"plain", "thenfail", "ctx", "twice", "swargfail"}
+Focals  == {"plain", "thenfail", "ctx", "twice", "swargfail", "swarginc"}
 
 MkC(par) ==
   LET path == par[1]  shape == par[2]  stage == par[3]  f == par[4]
@@ -17,15 +17,16 @@ MkC(par) ==
                  [] f = "thenfail" -> <<T("f0"), pr("fp", Var("q1")), P("ff", FailE), T("f1")>>
                  [] f = "ctx"      -> <<T("f0"), pr("fp", Ctx), T("f1")>>
                  [] f = "swargfail" -> <<T("f0"), TryS("ftry", <<[pr("fp", Var("q1")) EXCEPT !.g = "argfail"]>>), P("fq", Var("q1")), T("f1")>>
+                 [] f = "swarginc" -> <<T("f0"), [pr("fp", Var("q1")) EXCEPT !.g = "arginc"], P("fq", Var("q1")), T("f1")>>
                  [] f = "twice"    -> <<pr("fp", Var("q1")), pr("fp2", Var("q1"))>>
       r     == Build(path, 1, focal)
       main  == <<T("pre"), LetS("ls", "s", Lit("s0"))>> \o r.main \o <<pr("zp", Var("q1")), T("post")>>
-  IN [ts |-> <<Tm("main", "", <<"lib">>, main), Tm("lib", "", <<>>, r.bl)>> \o r.ts,
+  IN [ts |-> <<Tm("main", "", <<"lib">>, main), Tm("lib", "", <<>>, r.bl), Tm("swinner", "", <<>>, <<Raw("ri", Lit("swi"))>>)>> \o r.ts,
       globals |-> NoVarsMap, runs |-> <<RunR("main", [NoVarsMap EXCEPT !["q1"] = "val:" \o shape], "val:" \o shape)>>,
       tag |-> PathTag(path) \o "|" \o shape \o "|" \o stage \o "|" \o f]
 
 AllPaths == PathsUpTo(WrapKinds, Depth)
 cParams == {p \in AllPaths \X Shapes \X Stages \X Focals :
-              /\ (p[4] = "swargfail" => p[3] # "")
+              /\ (p[4] \in {"swargfail", "swarginc"} => p[3] # "")
               /\ (Len(p[1]) <= 1 \/ (p[2] \in {"str", "stringer"} /\ p[3] \in {"", "raw", "safeHtml"} /\ p[4] \in {"plain", "thenfail"}))}
 =============================================================================
